@@ -377,6 +377,12 @@ def rule_window(report, prog, res):
             report.check(not bad, 'C11-R3', key(f.qname, 'length field %s is used as decoded' % name), f.loc(bad[0]) if bad else f.loc(),
                          '%s re-writes the decoded length field: `%s` -- a frame whose length field does not fit is accepted in altered form instead '
                          'of being rejected with DecodeError' % (f.qname, norm(bad[0]) if bad else ''))
+    pd = prog.func(PDU + '.Parameter.decode')
+    has_size = any(a.arg == 'size' for a in pd.node.args.args)
+    guards = [i for i in ast.walk(pd.node) if isinstance(i, ast.If) and {'L', 'size'} <= set(x.id for x in ast.walk(i.test) if isinstance(x, ast.Name))
+              and isinstance(i.body[-1], ast.Raise)]
+    report.check(has_size and len(guards) >= 1, 'C11-R3', key(pd.qname, 'a TLV longer than the size it is given is rejected'), pd.loc(),
+                 'Parameter.decode does not compare the TLV length with the remaining size it is given')
     report.floor('C11-R3 reads', n_reads, 30)
     report.floor('C11-R3 TLV loops', tlv_loops, 5)
 
@@ -558,7 +564,7 @@ def rule_tlv(report, prog, res):
     # decoder: for each T the length test and the unpack format
     dec_info = {}
     for st in walk_no_nested(dec.node):
-        if isinstance(st, ast.If):
+        if isinstance(st, ast.If) and match(st.test, 'T == Parameter.$N') is not None:      # head of the per type dispatch chain
             node = st
             while isinstance(node, ast.If):
                 b = match(node.test, 'T == Parameter.$N')
